@@ -134,8 +134,9 @@ class XMLDocParser:
 
         # Filter out the members which don't match the method_args_names
         for maybe_member_def in maybe_member_defs:
+            argsstring = maybe_member_def.find('argsstring')
             self.print_if_verbose(
-                f"Investigating member_def with argstring {maybe_member_def.find('argsstring').text}"
+                f"Investigating member_def with argstring {argsstring.text if argsstring is not None else None}"
             )
             # Find the number of required parameters and the number of total parameters from the
             # Doxygen XML for this member_def
